@@ -352,6 +352,11 @@ impl<H: Host> ZXController<H> {
         self.current_port_7ffd
     }
 
+    #[cfg(rustzx_verif)]
+    pub(crate) fn verif_paging(&self) -> (u8, bool, u8) {
+        (self.current_port_7ffd, self.paging_enabled, self.screen_bank)
+    }
+
     #[cfg(all(feature = "sound", feature = "ay"))]
     fn read_ay_port(&mut self) -> u8 {
         self.mixer.ay.read()
